@@ -48,6 +48,7 @@ type G struct {
 	intVars     []string
 	shows       []string // top-level objects with their own S method
 	strVars     []string // top-level string variables (pinned keys)
+	bobjs       []string // top-level objects with their own B (truthiness) method
 	topInts     []string // top-level int variables (targets of compound assignment)
 	curKw       []string // keyword parameters of the function literal being generated
 	selfMethods []fnInfo // inside a method body: int-returning methods of the same object defined before it
@@ -87,6 +88,24 @@ func (g *G) topStmt() *N {
 	}
 	if g.p.LitW > 0 && len(g.shows) < 2 {
 		w[5] = 1
+	}
+	if g.p.JumpW > 0 && len(g.bobjs) < 2 && g.t.Chance(1, 5) {
+		// an object that decides its own truthiness: `B` calls the simulated callee and answers
+		// true or false, independently of whether the object has other properties
+		name := g.name("t")
+		truth := g.t.Chance(1, 2)
+		body := &N{K: KFunc, Method: true, L: []*N{
+			{K: KExprS, A: g.slot("id", "stmt/expr")},
+			{K: KExprS, A: &N{K: KBool, Bool: truth}},
+		}}
+		o := &N{K: KObj, L: []*N{body}, Names: []string{"B"}, Star: []int{0}}
+		if g.t.Chance(1, 2) {
+			o.L = append(o.L, &N{K: KInt, Int: 1})
+			o.Names = append(o.Names, "q")
+			o.Star = append(o.Star, 0)
+		}
+		g.bobjs = append(g.bobjs, name)
+		return &N{K: KAssign, Str: name, A: o}
 	}
 	if g.p.LitW > 0 && len(g.strVars) < 2 && g.t.Chance(1, 4) {
 		// a string variable, used as a pinned key (`{^pk1: e}`) later on
@@ -209,9 +228,18 @@ func (g *G) funcLit(np int, kw []string, method, retInt bool, depth int, paramNa
 
 func (g *G) guard(role string) *N {
 	if g.t.Chance(1, 2) {
-		return g.boolExpr(1, role)
+		return g.cond(role)
 	}
 	return nil
+}
+
+// cond is what a guard or an if tests: a boolean expression, or (sometimes) an object that
+// answers `B` itself - the one truthiness rule asks the value, whatever it is.
+func (g *G) cond(role string) *N {
+	if len(g.bobjs) > 0 && g.t.Chance(1, 6) {
+		return &N{K: KVar, Str: g.bobjs[g.t.Intn(len(g.bobjs))]}
+	}
+	return g.boolExpr(1, role)
 }
 
 var raiseKinds = []string{"Err", "TypeErr", "ValueErr", "NameErr", "AssertionErr"}
@@ -254,7 +282,7 @@ func (g *G) bodyStmts(retInt bool, depth int) []*N {
 	}
 	switch g.t.Pick(3, 2, 1, 1) {
 	case 0: // value or nil
-		out = append(out, &N{K: KExprS, A: &N{K: KIf, A: g.intExpr(depth, "if/then"), B: g.boolExpr(1, "if/cond")}})
+		out = append(out, &N{K: KExprS, A: &N{K: KIf, A: g.intExpr(depth, "if/then"), B: g.cond("if/cond")}})
 	case 1:
 		out = append(out, &N{K: KExprS, A: g.anyExpr(depth, "stmt/last")})
 	case 2:
@@ -393,7 +421,7 @@ func (g *G) intExpr(depth int, role string) *N {
 	case 2:
 		return &N{K: KPrefix, Str: "-", A: g.intExpr(depth-1, "prefix/operand")}
 	case 3:
-		return &N{K: KIf, A: g.intExpr(depth-1, "if/then"), B: g.boolExpr(1, "if/cond"), C: g.intExpr(depth-1, "if/else")}
+		return &N{K: KIf, A: g.intExpr(depth-1, "if/then"), B: g.cond("if/cond"), C: g.intExpr(depth-1, "if/else")}
 	case 4:
 		arr := g.intArr(depth-1, 1, "arr/elem")
 		n := g.arrLen(arr)
